@@ -437,6 +437,10 @@ def run(ctx):
     for params in sets:
         for alg in PEP_ALGS + Q_ALGS:
             items.append((params, alg, orders))
+    # one table of realistic size (12 000 targets + 12 000 decoys): whatever an estimator does to large inputs (binning,
+    # sub-sampling, capping) must still give every PSM the same value whatever the input order
+    for alg in PEP_ALGS:
+        items.append(((0.5, 2.0, 12000, 12000, 0.0), alg, ["desc", "asc", "riffle"]))
     # heavy items (qvality, kde) first so that the pool drains evenly; the set of items is fixed
     items.sort(key=lambda it: (it[1] not in ("qvality", "kde_nnls"), -it[0][3]))
     ctx.pmap(worker, items)
